@@ -283,6 +283,14 @@ def keyable(l, r):
             key = list(r[0])[0]
             if not all(key in e for e in mem):
                 return False
+            ids = [e[key] for e in mem if not yp.is_container(e[key])]
+            for i, a in enumerate(ids):
+                for b in ids[i + 1:]:
+                    try:
+                        if a == b and yp.scalar_plain(a)[0] != yp.scalar_plain(b)[0]:
+                            return False        # python-equal identities of different type (1 / true)
+                    except Exception:
+                        return False
             # identity keys must be unique per side, else record matching is ambiguous
             for side in (l, r):
                 ks = [repr(yp.scalar_plain(e[key])) for e in side]
